@@ -1,24 +1,17 @@
 #!/usr/bin/env python3
-"""Regenerates /verif/MANIFEST.json from the table below (kept valid at all times)."""
-import json, os
+"""Regenerates /verif/MANIFEST.json from the MANIFEST dict of every checks/cNN.py and from
+tools/not_applicable.json (kept valid at all times)."""
+import importlib, json, os, sys
 V = os.path.dirname(os.path.dirname(os.path.abspath(__file__)))
+sys.path.insert(0, V)
 props = [json.loads(l) for l in open(os.path.join(V, "properties.jsonl"))]
-
-CHECKS = {
- "C18": dict(
-   engine="E-symtab",
-   technique="Coq proof: representation invariant by induction over all op sequences + refinement to nested case-insensitive maps; tied to the code by exhaustive differential run of the extracted model",
-   text="Theorems over the Gallina model of SymbolTable (all op sequences, all chain lengths): lookup = latest insertion in nearest scope ignoring case, search_all one hit per scope, iteration = insertion order, merged listing = each name once/nearest wins/complete/ordered, stored indices in range. The model is tied to /repo by running the extracted model and the real SymbolTable on every insertion sequence up to length 5/4/3 (1/2/3 scopes) over 3 names x 2 casings followed by every query, plus random sequences; an independent oracle re-states the property on the implementation's own output.",
-   note="Trusted: Coq kernel, extraction (ExtrOcamlBasic), harness. Assumes ASCII names, acyclic parent chains (cycles: C14), id == info.id at insertion.",
-   design="6 C18"),
-}
-NOT_YET = "check not built yet in this session (planned, see DESIGN.md section 6)"
-
-checks, na = [], []
+NA = json.load(open(os.path.join(V, "tools", "not_applicable.json")))
+checks, na, engines = [], [], {}
 for p in props:
     pid = p["id"]
-    if pid in CHECKS:
-        c = CHECKS[pid]
+    path = os.path.join(V, "checks", pid.lower() + ".py")
+    if os.path.exists(path) and pid not in NA:
+        c = importlib.import_module("checks." + pid.lower()).MANIFEST
         checks.append({
             "property_id": pid,
             "quick_cmd": "./vcheck %s --tier quick" % pid,
@@ -26,30 +19,23 @@ for p in props:
             "evidence_file": "/verif/evidence/%s.json" % pid,
             "replay_cmd_template": "./vcheck %s --replay {path}" % pid,
             "engine": c["engine"],
-            "level_claimed": {"category": c.get("category", "proof"), "text": c["text"], "design_ref": c["design"]},
+            "level_claimed": {"category": c.get("category", "proof"), "text": c["text"], "design_ref": "DESIGN.md section " + c["design"]},
             "level_note": c["note"],
             "technique": c["technique"],
         })
+        for e in c.get("engines", []):
+            engines.setdefault(e["name"], dict(e, serves_properties=[]))["serves_properties"].append(pid)
     else:
-        na.append({"property_id": pid, "reason": NOT_YET})
-
+        na.append({"property_id": pid, "reason": NA.get(pid, "check not built yet in this session (planned, see DESIGN.md section 6)")})
+hooks = json.load(open(os.path.join(V, "tools", "hooks.json")))
 m = {
  "version": 1,
  "setup_cmd": "./setup.sh",
- "hooks": {
-   "guard": "gold_lsp_verif",
-   "enable": "RUSTFLAGS=\"--cfg gold_lsp_verif\" (cargo build of /verif/harness into target-hooks)",
-   "baseline_off_cmd": "cd /repo && cargo test --workspace --no-fail-fast --offline",
-   "source_commits": [],
-   "add_only": True,
- },
- "engines": [
-   {"name": "E-symtab", "path": "harness/src/eng_symtab.rs + coq/extract/eng_symtab.ml", "serves_properties": ["C18"],
-    "kind_free_text": "differential: real SymbolTable vs extracted Coq model on operation sequences"},
- ],
+ "hooks": hooks,
+ "engines": list(engines.values()),
  "checks": checks,
  "not_applicable": na,
  "notes": "Every check: translators -> Coq obligations of Properties/<id>.v re-checked (full .vo build, Print Assumptions audit) -> correspondence between extracted model and /repo's current tree -> evidence. See DESIGN.md.",
 }
 json.dump(m, open(os.path.join(V, "MANIFEST.json"), "w"), indent=1)
-print("MANIFEST.json written:", len(checks), "checks,", len(na), "not yet claimed")
+print("MANIFEST.json written:", len(checks), "checks,", len(na), "not claimed")
